@@ -13,3 +13,5 @@ func cacheSnapshot(c *oidc.Cache) (order, items, elems []string) { return c.Veri
 func stopMetadataCleanup(t *oidc.TraefikOidc) bool { t.VerifStopMetadataCleanup(); return true }
 
 func housekeeping(t *oidc.TraefikOidc) bool { t.VerifHousekeeping(); return true }
+
+func endpointsOf(t *oidc.TraefikOidc) map[string]string { return t.VerifEndpoints() }
